@@ -48,7 +48,7 @@ package adt
 //@ func cmpTonode
 //@   requires r == -1 || r == 0 || r == 1
 //@   requires c.errs == nil
-//@   ensures  isType(result, *Bool)
+//@   ensures  isType(result, *Bool) && result.(*Bool) != nil
 //@   ensures  op == LessThanOp     ==> result.(*Bool).B == (r <  0)
 //@   ensures  op == LessEqualOp    ==> result.(*Bool).B == (r <= 0)
 //@   ensures  op == EqualOp        ==> result.(*Bool).B == (r == 0)
@@ -214,3 +214,48 @@ package adt
 //@   loop 1 invariant -1 <= rangeindex
 //@   ensures [only] len(result) > 0 ==> forall k int :: 0 <= k && k < len(c.Values) ==> isIntType(c.Values[k]) || isGE(c.Values[k]) || isLE(c.Values[k])
 //@   ensures [unique] len(result) > 0 ==> forall j, k int :: 0 <= j && j < k && k < len(c.Values) ==> !(isIntType(c.Values[j]) && isIntType(c.Values[k])) && !(isGE(c.Values[j]) && isGE(c.Values[k])) && !(isLE(c.Values[j]) && isLE(c.Values[k]))
+
+// ---- C06: comparison arms of BinOp ----
+
+//@ func Pos
+//@   assumed A-int: source position of a node; reads only
+//@ func validateValue
+//@   assumed A-int: concreteness check; a concrete scalar passes and nothing is modified
+//@   ensures scalarV(v) ==> result == nil
+//@ func CombineErrors
+//@   assumed A-int: combines two error values; nil when neither operand is an error
+//@   ensures scalarV(x) && scalarV(y) ==> result == nil
+//@ func (*OpContext).Num
+//@   assumed A-int: Unwrap + type assertion; a *Num is returned as is
+//@   ensures isNumV(v) ==> result == v.(*Num)
+//@ func (*OpContext).StringValue
+//@   assumed A-int: the Str field of a *String
+//@   ensures isStrV(v) ==> result == strVal(v)
+//@ func (*OpContext).stringValue
+//@   assumed A-int: the Str field of a *String
+//@   ensures isStrV(v) ==> result == strVal(v)
+//@ func (*OpContext).bytesValue
+//@   assumed A-int: the B field of a *Bytes
+//@   ensures isBytesV(v) ==> result == v.(*Bytes).B
+//@ func (*OpContext).BoolValue
+//@   assumed A-int: the B field of a *Bool
+//@   ensures isBoolV(v) ==> result == v.(*Bool).B
+//@ func (*OpContext).boolValue
+//@   assumed A-int: the B field of a *Bool
+//@   ensures isBoolV(v) ==> result == v.(*Bool).B
+
+// (P) C06: "==, !=, <, <=, >, >= form a consistent total order on numbers
+// (int/float compared by value), strings and bytes (bytewise)": the result of a
+// comparison is the boolean cmpOK(op, sign of the difference) for numbers and
+// cmpOK(op, bytewise order) for strings and bytes.
+//@ func BinOp
+//@   strings abstract
+//@   may_panic
+//@   nocheck bounds frame
+//@   requires c != nil && c.errs == nil && scalarV(left) && scalarV(right) && wfV(left) && wfV(right)
+//@   ensures [numcmp] isNumV(left) && isNumV(right) && cmpOp(op) ==> isBoolV(result) && result.(*Bool).B == cmpOK(op, cmpNums(left, right))
+//@   ensures [strcmp] isStrV(left) && isStrV(right) && cmpOp(op) ==> isBoolV(result) && result.(*Bool).B == cmpOK(op, lexcmp(strVal(left), strVal(right)))
+//@   ensures [bytescmp] isBytesV(left) && isBytesV(right) && cmpOp(op) ==> isBoolV(result) && result.(*Bool).B == cmpOK(op, lexcmp(bytesVal(left), bytesVal(right)))
+//@   ensures [boolcmp] isBoolV(left) && isBoolV(right) && op == EqualOp ==> isBoolV(result) && result.(*Bool).B == (left.(*Bool).B == right.(*Bool).B)
+//@   ensures [nullcmp] isNullV(left) && isNullV(right) && (op == EqualOp || op == NotEqualOp) ==> isBoolV(result) && result.(*Bool).B == (op == EqualOp)
+//@   assigns heap
